@@ -100,7 +100,8 @@ static std::string obs_ok(const nitro::options::arguments& a, const std::vector<
 
 static std::string run_case(const std::vector<std::string>& w)
 {
-    if (w.size() < 4 || (w[0] != "parse" && w[0] != "parsel")) return "BADCASE";
+    if (w.size() < 4 || (w[0] != "parse" && w[0] != "parsel" && w[0] != "hist")) return "BADCASE";
+    bool hist = w[0] == "hist";
     bool typed = w[0] == "parsel";
     auto df = split_on(w[1], ';');
     if (df.size() != 5) return "BADCASE";
@@ -145,7 +146,7 @@ static std::string run_case(const std::vector<std::string>& w)
     std::string out;
     try
     {
-        nitro::options::parser p("app", "about");
+        auto declare = [&](nitro::options::parser& p) {
         for (auto& o : os)
         {
             auto& x = p.option(o.name, "d");
@@ -173,6 +174,19 @@ static std::string run_case(const std::vector<std::string>& w)
         if (df[0] == "~") p.accept_positionals();
         else p.accept_positionals(static_cast<std::size_t>(std::atol(df[0].c_str())));
         if (df[1] == "1") p.greedy_postionals();
+        };
+        auto one = [&](nitro::options::parser& q, const std::vector<const char*>& argv) -> std::string {
+            try
+            {
+                auto a = q.parse(static_cast<int>(argv.size()), argv.data());
+                return obs_ok(a, os, ms, ts, q, typed);
+            }
+            catch (const nitro::options::parsing_error&) { return "USER"; }
+            catch (const nitro::options::parser_error&) { return "DEV"; }
+            catch (const std::exception& e) { return std::string("OTHER(") + typeid(e).name() + ")"; }
+        };
+        nitro::options::parser p("app", "about");
+        declare(p);
 
         for (std::size_t k = 3; k < w.size(); k++)
         {
@@ -181,14 +195,14 @@ static std::string run_case(const std::vector<std::string>& w)
             argv.push_back("prog");
             for (auto& s : args) argv.push_back(s.c_str());
             if (k > 3) out += " | ";
-            try
+            out += one(p, argv);
+            if (hist)
             {
-                auto a = p.parse(static_cast<int>(argv.size()), argv.data());
-                out += obs_ok(a, os, ms, ts, p, typed);
+                // the same vector on a freshly built identical parser
+                nitro::options::parser fresh("app", "about");
+                declare(fresh);
+                out += " # " + one(fresh, argv);
             }
-            catch (const nitro::options::parsing_error&) { out += "USER"; }
-            catch (const nitro::options::parser_error&) { out += "DEV"; }
-            catch (const std::exception& e) { out += std::string("OTHER(") + typeid(e).name() + ")"; }
         }
     }
     catch (const nitro::options::parser_error&) { out = "DECL-DEV"; }
